@@ -517,7 +517,7 @@ def _cg_case(prm: dict):
     xsc = torch.view_as_complex(xs.contiguous()).reshape(n_, npx).to(torch.complex128)
     rel = float((xsc - sol).norm()) / (float(sol.norm()) + 1e-12)
     info["rel_to_dense"] = rel
-    if tuple(xs.shape) != (n_, h_, w_, 2) or not rel <= 5e-4:
+    if tuple(xs.shape) != (n_, h_, w_, 2) or not rel <= 2e-3:
         fails.append((f"cg-solution-{upd}", f"ConjGrad({upd}) differs from the dense solve of (A^H A + λ) x = A^H y + λ z: "
                                             f"relative error {rel:.3g} (λ = {lam64})"))
     # (2) objective non-increasing over iteration counts, never worse than the start; every iterate is the textbook
@@ -576,6 +576,27 @@ def _cg_case(prm: dict):
     ez, ed = objective(z), objective(xd)
     if not ed <= ez + 1e-4 * (abs(ez) + 1.0):
         fails.append((f"cg-worse-than-start-{upd}", f"default ConjGrad.forward: objective {ed:.6g} exceeds the start {ez:.6g}"))
+    # (3b) fixed point: started at a solution (z with A^H A z = A^H y makes z itself the solution) the block stays there
+    if n_ == 1:
+        zfix = torch.linalg.pinv(As[0]) @ yc[0]
+        zf = torch.view_as_real(zfix.reshape(1, h_, w_).to(torch.complex64)).contiguous()
+        one = ConjGrad(fop, bop, num_iters=1, tol=0.0, bk_update_type=CGUpdateType(upd))
+        with torch.no_grad():
+            xf = one(y, S, m, zf, lam)
+
+        def objective_z(x, zc_):
+            xc = torch.view_as_complex(x.contiguous()).reshape(npx).to(torch.complex128)
+            my = torch.view_as_complex(torch.where(m == 0, torch.tensor([0.0]), y).contiguous()).reshape(-1).to(torch.complex128)
+            return 0.5 * float((As[0] @ xc - my).abs().pow(2).sum()) + 0.5 * lam64 * float((xc - zc_).abs().pow(2).sum())
+
+        zfc = torch.view_as_complex(zf).reshape(npx).to(torch.complex128)
+        e_start, e_out = objective_z(zf, zfc), objective_z(xf, zfc)
+        drift = float((torch.view_as_complex(xf.contiguous()).reshape(npx).to(torch.complex128) - zfc).norm()) / \
+            (float(zfc.norm()) + 1e-12)
+        info["fixed_point_drift"] = drift
+        if not (e_out <= e_start + 1e-4 * (abs(e_start) + 1.0) and drift <= 1e-3):
+            fails.append((f"cg-fixed-point-{upd}", f"started at the solution of the normal equations the block moves away: "
+                                                   f"objective {e_start:.6g} -> {e_out:.6g}, relative drift {drift:.3g}"))
     # (4) "to solver tolerance": when the loop is left through the `tol` test, the TRUE residual of the returned x
     #     passes that test (mean over the batch and the (re, im) pair of sqrt|<r, r>|)
     def stat(x):
